@@ -23,6 +23,8 @@ PBUILD_STATE = {"lhs_matrix", "rhs_matrix", "removed_columns", "mapping_order", 
 
 def run(ctx):
     repo = ctx.repo
+    rules.borrow(ctx, "C13", funcs=["forsys.fmatrix.ForceMatrix.set_velocity_matrix"], minimum=8, because="the right-hand side depends on the arguments of this call only (no scaling or buffer remembered from an earlier solve)")
+    rules.borrow(ctx, "C08", funcs=["forsys.frames.Frame.get_tensions", "forsys.frames.Frame.get_external_edges_ids"], minimum=3, because="row i of the tension table is the interface whose value is reported at position i: the table lists exactly the internal interfaces")
     rules.borrow(ctx, "C16", funcs=["forsys.fmatrix.ForceMatrix.get_solution_no_discarded", "forsys.fmatrix.ForceMatrix.get_angle_limited_edges", "forsys.fmatrix.ForceMatrix.get_new_initial_condition"], minimum=10, because="value i of the reported list belongs to interface i also when interfaces are excluded")
 
     # ------------------------------------------------------------------ write-back in ForceMatrix.solve
